@@ -27,6 +27,7 @@ FAULTS = {
     "absname_writef": "writef(bio, '/abs/name') – absolute name",
     "src_before": "writef: reading the source raises before any byte",
     "src_midway": "writef: reading the source raises midway",
+    "src_valueerror": "writef: reading the source raises ValueError (e.g. read of a closed file) before any byte",
     "stat_fails": "write(path): lstat raises EACCES",
     "open_fails": "write(path): open raises EACCES",
     "badtype": "write(12345) – unsupported argument type",
@@ -62,6 +63,8 @@ def failed_write(nold, fault, after):
                 e.method(z, "writef", S.StubSource(sizes[k], "bad", fail="before"), "bad.bin")
             elif fault == "src_midway":
                 e.method(z, "writef", S.StubSource(sizes[k], "bad", fail="midway"), "bad.bin")
+            elif fault == "src_valueerror":
+                e.method(z, "writef", S.StubSource(sizes[k], "bad", fail="before_valueerror"), "bad.bin")
             elif fault == "stat_fails":
                 e.method(z, "write", S.StubPath("src/bad", "file", sizes[k], "bad", fail="stat"), "bad.bin")
             elif fault == "open_fails":
@@ -117,7 +120,7 @@ def failed_write(nold, fault, after):
     decide(eng, harness, post, {"size%d" % i: s for i, s in enumerate(sizes)}, r,
            describe=lambda o: "raised=%s later=%s members=%s" % (o["raised"], o["later_exc"], len(o["good"])))
     _cex(r, "failed_write", lambda w_: dict(module="vf.props.c15", func="replay", kwargs=dict(nold=nold, fault=fault, after=after)),
-         signature=lambda w_: {"obligation": "failed_write", "fault": "source" if fault in ("src_before", "src_midway", "open_fails") else fault})
+         signature=lambda w_: {"obligation": "failed_write", "fault": "source" if fault in ("src_before", "src_midway", "open_fails", "src_valueerror") else fault})
     return r
 
 
@@ -169,6 +172,10 @@ def replay(nold, fault, after):
                 z.writef(Faulty(3000000, 0), "bad.bin")
             elif fault == "src_midway":
                 z.writef(Faulty(3000000, 1500000), "bad.bin")
+            elif fault == "src_valueerror":
+                f_ = Faulty(3000000, 0)
+                f_.read = lambda size=-1: (_ for _ in ()).throw(ValueError("read of closed file"))
+                z.writef(f_, "bad.bin")
             elif fault in ("stat_fails", "open_fails"):
                 q = os.path.join(d, "secret")
                 open(q, "wb").write(b"s")
